@@ -437,6 +437,9 @@ func (self *PathNode) handleChild(in *[]PathNode, lp *int, cp *int, p *binary.Bi
 	}
 	v := &con[l]
 	l += 1
+	// NOTICE: the slot may be reused from a previous load: its children must not survive
+	// unless they are scanned again below
+	v.Next = v.Next[:0]
 
 	start := p.Read
 	buf := p.Buf
@@ -537,6 +540,8 @@ func (self *PathNode) handleUnknownChild(in *[]PathNode, lp *int, cp *int, p *bi
 	}
 	v := &con[l]
 	l += 1
+	// NOTICE: the slot may be reused from a previous load
+	v.Next = v.Next[:0]
 
 	start := p.Read - tagL
 
